@@ -241,6 +241,47 @@ theorem writeAll_fresh (recv : Path) :
         | none => simp only [hw] at h; exact writeAll_fresh recv rest r1 acc r' ups hf1 hv' h
         | some u1 => simp only [hw] at h; exact writeAll_fresh recv rest r1 _ r' ups hf1 hv' h
 
+theorem writeAllM_fresh (recv : Path) :
+    (pairs : List (Path × T)) → (root : T) → (acc : List (Update × Path)) → (r' : T) →
+      (ups : List (Update × Path)) → Fresh root → (∀ pv ∈ pairs, Fresh pv.2) →
+      writeAllM root recv pairs acc = some (r', ups) → Fresh r'
+  | [], root, acc, r', ups, hf, _, h => by simp [writeAllM] at h; rw [← h.1]; exact hf
+  | (p, v) :: rest, root, acc, r', ups, hf, hv, h => by
+    simp only [writeAllM] at h
+    cases hp : p.reverse with
+    | nil => simp [hp] at h
+    | cons k revParent =>
+      simp only [hp] at h
+      have hv' : ∀ pv ∈ rest, Fresh pv.2 := fun pv hm => hv pv (by simp [hm])
+      -- whatever the kind of the write, it is the write primitive followed by the reset of the chain
+      have key : ∀ (w : Option (Option (T × Option Update))),
+          (∀ r1 u1, w = some (some (r1, u1)) → Fresh r1) →
+          (match w with
+            | none => none
+            | some none => none
+            | some (some (root', none)) => writeAllM root' recv rest acc
+            | some (some (root', some u)) => writeAllM root' recv rest (acc ++ [(u, recv ++ revParent.reverse)]))
+            = some (r', ups) → Fresh r' := by
+        intro w hw h
+        match w, hw, h with
+        | none, _, h => simp at h
+        | some none, _, h => simp at h
+        | some (some (r1, none)), hw, h => exact writeAllM_fresh recv rest r1 acc r' ups (hw r1 none rfl) hv' h
+        | some (some (r1, some u)), hw, h => exact writeAllM_fresh recv rest r1 _ r' ups (hw r1 (some u) rfl) hv' h
+      refine key _ ?_ h
+      intro r1 u1 hw
+      split at hw
+      · split at hw
+        · split at hw
+          · simp only [Option.some.injEq, Prod.mk.injEq] at hw; rw [← hw.1]; exact hf
+          · simp only [Option.some.injEq] at hw
+            exact writeReset_fresh hf (fun nv hnv => by cases hnv; simp [Fresh]) hw
+        · cases hw
+        · simp only [Option.some.injEq] at hw
+          exact writeReset_fresh hf (fun nv hnv => by cases hnv) hw
+      · simp only [Option.some.injEq] at hw
+        exact writeReset_fresh hf (fun nv hnv => by cases hnv; exact hv (p, v) (by simp)) hw
+
 /-- A raw change of the receiver's items followed by the invalidation of its chain. -/
 theorem mapAt_resetChain_fresh (g : T → T) (hleaf : ∀ a, g (.leaf a) = .leaf a)
     (hg : ∀ m kd items, FreshItems items → ∃ items', g (.node m kd items) = .node m kd items' ∧ FreshItems items') :
